@@ -32,7 +32,8 @@ PROP = {
          "tests": [("TestVFC14FilterList", (40, 150))],
          "plain": ["TestVFC14FilterListSyscalls"]},
         {"name": "config", "pkg": "internal/home", "files": ["home/common_assembly_test.go", "home/c14_config_test.go"],
-         "tests": [("TestVFC14ConfigWrite", (40, 120)), ("TestVFC14ConfigUpgrade", (60, 150))],
+         "tests": [("TestVFC14ConfigWrite", (40, 120)), ("TestVFC14ConfigUpgrade", (60, 150)),
+                   ("TestVFC14ConfigConcurrent", (30, 150))],
          "plain": ["TestVFC14ConfigSyscalls"]},
     ],
     "shards": (1, 16),
@@ -44,7 +45,7 @@ PROP = {
             "content size/generation, position in the sequence).",
     "assumptions": ["rename(2) is atomic; data is durable only after fsync; the kernel reports every event through inotify",
                     "strace reports the syscalls of all threads of the child (-f)"],
-    "require_classes": {"thorough": ["leasedb:replace_different", "leasedb:overlapping_stores", "filterlist:replace_different", "config:replace_different",
+    "require_classes": {"thorough": ["leasedb:replace_different", "leasedb:overlapping_stores", "config:overlapping_saves", "filterlist:replace_different", "config:replace_different",
                                       "config:upgrade_rewrite", "leasedb:migration", "leasedb:syscall_checked_renames",
                                       "filterlist:syscall_checked_renames", "config:syscall_checked_renames"]},
 }
